@@ -7,7 +7,9 @@ IDENT = re.compile(r"^[A-Za-z_.$][\w.$]*$")
 SHAPES = {  # mnemonic -> operand kinds (r register, i immediate, l label, x register-or-immediate)
     "ADD": "rrx", "SUB": "rrr", "MUL": "rrr", "DIV": "rrr", "REM": "rrr", "JAL": "rl", "JALR": "rri", "LA": "rl",
     "LI": "ri", "MV": "rr", "LW": "rir", "SW": "rir", "BEQ": "rrl", "BNE": "rrl", "BLT": "rrl", "BLE": "rrl",
-    "BGT": "rrl", "BGE": "rrl"}
+    "BGT": "rrl", "BGE": "rrl",
+    # forms the backend does not print today but another instruction selection may (modelled in spec/RV64.tla)
+    "SLLI": "rri", "SRLI": "rri", "SRAI": "rri", "AND": "rrx", "OR": "rrx", "XOR": "rrx"}
 
 # standard pseudo-instructions are rewritten to the base instructions they stand for (RISC-V assembly manual)
 PSEUDO = {
@@ -15,7 +17,8 @@ PSEUDO = {
     "BGEZ": lambda r, l: ["BGE", r, "X0", l], "BLEZ": lambda r, l: ["BLE", r, "X0", l], "BGTZ": lambda r, l: ["BGT", r, "X0", l],
     "J": lambda l: ["JAL", "X0", l], "JR": lambda r: ["JALR", "X0", r, "0"], "NEG": lambda d, r: ["SUB", d, "X0", r],
     "ADDI": lambda d, r, i: ["ADD", d, r, i], "NOP": lambda: ["ADD", "X0", "X0", "0"], "LD": lambda d, i, r: ["LW", d, i, r],
-    "SD": lambda d, i, r: ["SW", d, i, r],
+    "SD": lambda d, i, r: ["SW", d, i, r], "ANDI": lambda d, r, i: ["AND", d, r, i], "ORI": lambda d, r, i: ["OR", d, r, i],
+    "XORI": lambda d, r, i: ["XOR", d, r, i],
 }
 
 
